@@ -18,7 +18,10 @@
 (* some moment between them: every process action is a hidden step; the     *)
 (* events only synchronise (an `issue` must find the process waiting for    *)
 (* exactly that fetch, the answer is consumed only after `recv`, `done`     *)
-(* must find the verdict).  The properties of ValidatorConc.tla are         *)
+(* must find the verdict).  The recorder's clock thread steps the clocks    *)
+(* only while no validation is between a start / recv and its next issue /  *)
+(* done (the validator reads the clocks several times within one            *)
+(* computation).  The properties of ValidatorConc.tla are                   *)
 (* evaluated as invariants on every state of the validated run.             *)
 EXTENDS MC_ValidatorConc, Json
 
